@@ -75,23 +75,34 @@ class Lab:
                     with open(marker, "w") as f:
                         f.write(key)
                 os.utime(marker, None)
-                # drop stale copies (other source states unused for 90 min)
+                # drop stale copies: other source states whose lock is free (nobody is building or about to use
+                # them) and that were not used for 90 minutes (or never finished building)
                 now = time.time()
                 for d in os.listdir(root):
                     p = os.path.join(root, d)
                     if d.startswith(".") or p == self.tree or not os.path.isdir(p):
                         continue
-                    m = os.path.join(p, ".verif-build-ok")
                     try:
-                        age = now - os.path.getmtime(m)
+                        lf = open(os.path.join(root, ".lock-" + d), "a")
                     except OSError:
-                        age = now - os.path.getmtime(p)
-                    if age > 5400:
-                        shutil.rmtree(p, ignore_errors=True)
+                        continue
+                    try:
                         try:
-                            os.unlink(os.path.join(root, ".lock-" + d))
+                            fcntl.flock(lf, fcntl.LOCK_EX | fcntl.LOCK_NB)
+                        except OSError:
+                            continue          # in use
+                        m = os.path.join(p, ".verif-build-ok")
+                        if os.path.exists(m):
+                            if now - os.path.getmtime(m) > 5400:
+                                shutil.rmtree(p, ignore_errors=True)
+                        else:
+                            shutil.rmtree(p, ignore_errors=True)   # abandoned partial build
+                    finally:
+                        try:
+                            fcntl.flock(lf, fcntl.LOCK_UN)
                         except OSError:
                             pass
+                        lf.close()
             finally:
                 fcntl.flock(lockf, fcntl.LOCK_UN)
                 lockf.close()
